@@ -429,7 +429,17 @@ fn corpus() -> Vec<(usize, Vec<Op>)> {
     }
     thr.push(Op::Housekeep(t + 3000));
     thr.push(Op::Housekeep(t + 13_000));
-    vec![(2, f5), (3, stale), (2, thr)]
+    // equal windows: round robin through the queued count, ties to the lowest index; a connected link
+    // that has never received gets no global +1
+    let mut ties = vec![Op::Up(0, t), Op::Up(1, t), Op::Up(2, t)];
+    for k in 0..7u64 { ties.push(Op::Pkt(Some(300 + k as u32), false, t + 1 + k, 5000)); }
+    ties.push(Op::Flush(t + 20));
+    ties.push(Op::SetConn(2, true, None));
+    ties.push(Op::SrtlaAck(0, vec![300, 303], t + 30));
+    ties.push(Op::SrtlaAck(1, vec![302, 999], t + 31));
+    ties.push(Op::Pkt(Some(400), false, t + 32, 5000));
+    ties.push(Op::Nak(2, vec![301, 301], t + 33));
+    vec![(2, f5), (3, stale), (2, thr), (3, ties)]
 }
 
 // ---------------------------------------------------------------- closed-loop generator
@@ -583,11 +593,11 @@ pub fn run(seed: u64, tier: &str, out: &std::path::Path, _extra: &[(String, Stri
         run.push("corpus", true, c.text);
     }
     let mut rng = Rng::new(seed ^ 0xC10C_10C1_0000_0000);
-    let ncases = if run.thorough() { 2000 } else { 250 };
+    let ncases = if run.thorough() { 1600 } else { 160 };
     let mut counts: std::collections::BTreeMap<String, u64> = Default::default();
     for k in 0..ncases {
         let n = 1 + (rng.below(4) as usize);
-        let len = 3 * n + *rng.pick(&[10usize, 25, 40, 60, 80]);
+        let len = 3 * n + *rng.pick(&[10usize, 25, 40, 60, 70]);
         let mut g = Gen::new(rng.fork(k as u64), n, len);
         let c = run_case(&rt, n, seed ^ k as u64, |w, i| g.next(w, i),
                          |o| { *counts.entry(format!("op:{}", op_kind(o))).or_insert(0) += 1; });
